@@ -35,9 +35,11 @@ ANCHORS = ["dagrt.exec_numpy:NumpyInterpreter.run_single_step", "dagrt.exec_nump
            "dagrt.language:ExecutionController.__call__"]
 MIN_NONTRIVIAL = {"quick": 2500, "thorough": 224000}
 REQUIRED_COUNTERS = {"quick": ["faults_injected_interpreter", "faults_injected_generated", "exception_identity_checked",
-                               "post_fault_values_checked", "resume_steps_compared"],
+                               "post_fault_values_checked", "resume_steps_compared",
+                               "faults_injected_in_statement_guard"],
                      "thorough": ["faults_injected_interpreter", "faults_injected_generated",
-                                  "exception_identity_checked", "post_fault_values_checked", "resume_steps_compared"]}
+                                  "exception_identity_checked", "post_fault_values_checked", "resume_steps_compared",
+                                  "faults_injected_in_statement_guard"]}
 SHARD_TIMEOUT = {"quick": 900, "thorough": 3400}
 
 
@@ -289,6 +291,181 @@ def check_program(script, rec):
                               f"fresh stepper in the same state: {d[1]}", wit)
 
 
+# {{{ calls inside the guard of a statement (hand-built statements: CodeBuilder.if_ never produces these)
+
+GC_VARS = ["<state>a", "<state>b", "<state>c"]
+
+
+def gc_funcs(hook):
+    def c(x, tag=None):
+        hook("<func>c", tag)
+        return 0.75 * x - 0.125 * tag
+
+    def f(x, tag=None):
+        hook("<func>f", tag)
+        return 0.5 * x + tag
+    return {"<func>c": c, "<func>f": f}
+
+
+def gen_guard_calls(rng):
+    site = [0]
+
+    def call(fn):
+        site[0] += 1
+        return ["call", fn, [["var", rng.choice(GC_VARS)]], {"tag": ["num", site[0]]}]
+
+    def plain():
+        return ["+", ["*", ["num", rng.choice([0.5, -0.5, 0.25])], ["var", rng.choice(GC_VARS)]],
+                ["num", rng.choice([1, 0.5, -1])]]
+    stmts = [{"target": "tmpv", "rhs": plain(), "cond": None}]
+    for k in range(rng.randint(2, 6)):
+        r = rng.random()
+        if r < 0.3:
+            cond = None
+        elif r < 0.6:
+            cond = ["cmp", rng.choice([">", "<"]), call("<func>c"), ["num", rng.choice([0, 0.5, -0.5])]]
+        elif r < 0.8:
+            cond = ["and", ["cmp", "<", ["var", rng.choice(GC_VARS)], ["num", rng.choice([1, 4, 100])]],
+                    ["cmp", ">", call("<func>c"), ["num", rng.choice([0, -1])]]]
+        else:
+            cond = ["not", ["cmp", ">", call("<func>c"), ["num", rng.choice([0, 1])]]]
+        rr = rng.random()
+        rhs = plain() if rr < 0.5 else (["+", plain(), call("<func>f")] if rr < 0.8 else ["+", plain(), ["var", "tmpv"]])
+        stmts.append({"target": rng.choice(GC_VARS), "rhs": rhs, "cond": cond})
+    return {"guard_calls": True, "stmts": stmts, "t0": 0.0, "dt0": 0.5,
+            "state": {"a": rng.choice([1.0, 2.0, -1.0]), "b": rng.choice([0.5, 3.0]), "c": rng.choice([-2.0, 1.5])},
+            "run": {"max_steps": rng.randint(2, 3)}, "event_cap": 40}
+
+
+def gc_reference(case, fault=None):
+    """Program order on a plain dict; returns (sites [(key, n, step)], per-step pre/at-fault states)."""
+    from vf.sexpr import Env, ev
+    counts, sites = {}, []
+    store = {"<state>" + k: float(v) for k, v in case["state"].items()}
+
+    class Stop(Exception):
+        pass
+
+    cur = [0]
+
+    def hook(name, tag):
+        key = f"{name}#{int(tag)}"
+        n = counts.get(key, 0)
+        counts[key] = n + 1
+        sites.append((key, n, cur[0]))
+        if fault == (key, n):
+            raise Stop()
+    funcs = gc_funcs(hook)
+    for step in range(case["run"]["max_steps"]):
+        cur[0] = step
+        pre = dict(store)
+        work = dict(store)
+        try:
+            for st in case["stmts"]:
+                env = Env(work, funcs)
+                if st["cond"] is None or ev(st["cond"], env):
+                    work[st["target"]] = ev(st["rhs"], env)
+        except Stop:
+            return sites, pre, {k: v for k, v in work.items() if k in pre}
+        store = {k: v for k, v in work.items() if k in pre}
+    return sites, None, None
+
+
+def check_guard_calls(case, rec):
+    from dagrt.codegen import PythonCodeGenerator
+    from dagrt.language import Assign, DAGCode, ExecutionPhase
+    from vf.sexpr import to_pym
+    stmts = []
+    for k, st in enumerate(case["stmts"]):
+        stmts.append(Assign(st["target"], (), to_pym(st["rhs"]), id=f"s{k}",
+                            depends_on=frozenset([f"s{k - 1}"] if k else []),
+                            condition=True if st["cond"] is None else to_pym(st["cond"])))
+    dag = DAGCode({"main": ExecutionPhase("main", "main", frozenset(stmts))}, "main")
+    cg = PythonCodeGenerator(class_name="M")
+    cls = cg.get_class(dag)
+    cache = (cls, dict(cg._name_manager._global_map._dict))
+    try:
+        sites, _, _ = gc_reference(case)
+    except Undefined as u:
+        rec.undef(str(u))
+        return
+    rec.count("guard_call_programs")
+    for fi, (key, n, step) in enumerate(sites):
+        in_guard = key.startswith("<func>c")
+        _, pre, at_fault = gc_reference(case, (key, n))
+        for kind in ("interpreter", "generated"):
+            wit = dict(case, fault=[key, n], backend=kind)
+            exc = make_exc(fi + step)
+            fired = [False]
+            counts = {}
+
+            def hook(name, tag, counts=counts, fired=fired, exc=exc):
+                kk = f"{name}#{int(tag)}"
+                m = counts.get(kk, 0)
+                counts[kk] = m + 1
+                if not fired[0] and (kk, m) == (key, n):
+                    fired[0] = True
+                    raise exc
+            st = Stepper(kind, dag, case, gc_funcs(hook), cache)
+            base_attrs = st.attrs()
+            with case_alarm(20):
+                events, bounds, got = drive(st, case["run"]["max_steps"], case["event_cap"])
+            rec.count("faults_injected_" + kind)
+            if in_guard:
+                rec.count("faults_injected_in_statement_guard")
+            rec.case(["guard-call", rec_key(case), key, n, kind], nontrivial=True)
+            if not fired[0]:
+                rec.violation("faulted-call-never-made",
+                              f"{kind}: call {key} invocation {n} happens in program order (step {step}) but the "
+                              f"backend never made it", wit)
+                continue
+            rec.count("exception_identity_checked")
+            if got is not exc:
+                where = "in-statement-guard-" if in_guard else ""
+                rec.violation(f"exception-{where}not-propagated-unchanged-{type(exc).__name__}",
+                              f"{kind}: user function raised {exc!r}; the caller of run() got {got!r}", wit)
+                continue
+            stray = st.stray(base_attrs)
+            if stray:
+                rec.violation(f"temporary-visible-after-fault-{kind}",
+                              f"{kind}: after the fault these non-persistent names are visible: {stray}", wit)
+                continue
+            post = st.persistent()
+            bad = False
+            for var in sorted(set(pre) & set(bounds[0][0])):
+                # (a variable the program never mentions does not exist in the generated class)
+                rec.count("post_fault_values_checked")
+                if var not in post or not (values_equal(post[var], pre[var], rtol=1e-12)
+                                           or values_equal(post[var], at_fault[var], rtol=1e-12)):
+                    rec.violation(f"post-fault-value-not-assigned-by-program-{kind}",
+                                  f"{kind}: after {key}#{n} failed in step {step}, {var} = {post.get(var)!r}; allowed: "
+                                  f"pre-step {pre[var]!r} or {at_fault[var]!r}", wit)
+                    bad = True
+                    break
+            if bad:
+                continue
+            nxt = st.obj.next_phase
+            noop = lambda name, tag: None      # noqa: E731
+            fresh = Stepper(kind, dag, case, gc_funcs(noop), cache)
+            fresh.load(post, nxt)
+            with case_alarm(20):
+                e1, b1, x1 = drive(st, 2, 40)
+                e2, b2, x2 = drive(fresh, 2, 40)
+            rec.count("resume_steps_compared", len(b1) - 1)
+            r1, r2 = backends.Result(), backends.Result()
+            r1.events, r2.events = e1, e2
+            r1.persist_after, r2.persist_after = b1[1:], b2[1:]
+            d = backends.first_difference(r1, r2, "resumed", "fresh", rtol=1e-12)
+            if d is None and (x1 is None) != (x2 is None):
+                d = ("exception", f"resumed raised {x1!r}, fresh raised {x2!r}")
+            if d is not None:
+                rec.violation(f"resumed-stepper-differs-from-fresh-{kind}:{d[0]}",
+                              f"{kind}: after {key}#{n} failed, continuing on the same object differs from a "
+                              f"fresh stepper in the same state: {d[1]}", wit)
+
+# }}}
+
+
 def rec_key(script):
     from vf.runner import jhash
     return jhash(script)
@@ -296,9 +473,14 @@ def rec_key(script):
 
 def run_shard(shard, rec):
     rng = random.Random(shard["seed"])
-    for _ in range(shard["count"]):
-        script = gen_script(rng)
+    for i in range(shard["count"]):
         try:
+            if i % 5 == 4:
+                for _ in range(3):
+                    with case_alarm(120):
+                        check_guard_calls(gen_guard_calls(rng), rec)
+                continue
+            script = gen_script(rng)
             with case_alarm(120):
                 check_program(script, rec)
         except CaseTimeout:
@@ -306,6 +488,9 @@ def run_shard(shard, rec):
 
 
 def replay(witness, rec):
+    if witness.get("guard_calls"):
+        check_guard_calls({k: v for k, v in witness.items() if k not in ("fault", "backend")}, rec)
+        return
     check_program(witness["script"], rec)
 
 
